@@ -113,7 +113,7 @@ USSS.note = "fmt % index[0] and index arithmetic are opaque numpy/format operati
 
 # ---- W2: the refresh decision of writer.write
 def w2_verify(E, c):
-    body, fn = BL.find_block(E, "writer.write", "index_changed = False", "las.update_units_from_index_curve()")
+    body, fn = BL.find_block(E, "writer.write", "after:if version == 1.2:", "las.update_units_from_index_curve()")
     return E.verify(c, fnode=fn, body=body, module="writer")
 
 
